@@ -1,4 +1,4 @@
-\* Both layers enabled: a trace of the reducer harness contains Append/AppendBatch lines, a
+\* Both layers enabled: a trace of the reducer harness contains Append/AppendBatch/Stage/Commit lines, a
 \* trace of the leader harness LeaderAppend/CacheLoss lines.  C40_FinishFailClosed is not
 \* listed: the leader harness reports a finish that silently drops lost cache-only content
 \* itself (known finding), the trace specification describes what the code does.
@@ -15,6 +15,6 @@ CONSTANTS
   DeltaAfterLoss = TRUE
 CONSTRAINT Track
 INVARIANTS Conform TypeOK C40_SeqShape
-PROPERTIES C40_SeqMonotone C40_TerminalOnce C40_ReplayNoop C40_CacheIsNotDurable C40_FinishCacheMiss
+PROPERTIES C40_StagedCommit C40_SeqMonotone C40_TerminalOnce C40_ReplayNoop C40_CacheIsNotDurable C40_FinishCacheMiss
 POSTCONDITION Accepted
 CHECK_DEADLOCK FALSE
